@@ -63,6 +63,12 @@ def Quirks.pinned : Quirks := ⟨true, true, true⟩
 /-- the tree after the three `fix:` commits (the code the check runs against) -/
 def Quirks.fixed : Quirks := ⟨false, false, false⟩
 
+instance exceptDecEq {ε α : Type} [DecidableEq ε] [DecidableEq α] : DecidableEq (Except ε α)
+  | .ok a, .ok b => if h : a = b then isTrue (by rw [h]) else isFalse (by intro e; cases e; exact h rfl)
+  | .error a, .error b => if h : a = b then isTrue (by rw [h]) else isFalse (by intro e; cases e; exact h rfl)
+  | .ok _, .error _ => isFalse (by intro e; cases e)
+  | .error _, .ok _ => isFalse (by intro e; cases e)
+
 inductive ColErr
   | invalidColumn   -- "Column number '{column}' is not valid."
   | negativeWidth   -- "Can not set a negative width: {width}"
@@ -214,6 +220,14 @@ def SortedIn (lo hi : Int) : List (Col W) → Prop
 
 /-- a well-formed layout: sorted, disjoint, every descriptor within 1 ..= LAST_COLUMN -/
 def WfCols (cols : List (Col W)) : Prop := SortedIn 0 lastColumn cols
+
+instance decSortedIn (lo hi : Int) : (cols : List (Col W)) → Decidable (SortedIn lo hi cols)
+  | [] => isTrue trivial
+  | d :: rest =>
+    have := decSortedIn d.max hi rest
+    by unfold SortedIn; exact inferInstance
+
+instance (cols : List (Col W)) : Decidable (WfCols cols) := decSortedIn _ _ _
 
 /-- executable form of `SortedIn` (used by the driver and by `decide`d examples) -/
 def sortedInB (lo hi : Int) : List (Col W) → Bool
